@@ -237,6 +237,17 @@ func genC13kmac(c *Ctx, datas map[string][]byte) {
 		c.Case(class, strings.TrimSpace(line), ans)
 	}
 	d1 := genData(datas, 33, 4)
+	// pairs (key, customizer) whose concatenations coincide (a memo keyed by the concatenation confuses them): created
+	// one after the other in this process
+	{
+		T := c.bytes(60)
+		d := genData(datas, 40, 9)
+		for round := 0; round < 2; round++ {
+			for _, cut := range []int{33, 60, 16, 48, 17, 59} {
+				run("kmac-key-customizer-split", T[:cut], T[cut:], 32, []string{"c:" + d, "w:" + d, "s"})
+			}
+		}
+	}
 	// every key length 0..nKey (crosses the bytepad boundary at 163, 331, 499, 667)
 	for l := 0; l < nKey; l++ {
 		run("kmac-keylen", lcgBytes(l, 5), []byte("cust"), 32, []string{"c:" + d1, "w:" + d1, "s"})
